@@ -841,6 +841,13 @@ func (g *generator) step() (res Value, resultType resultType, ex *Exception) {
 				return
 			}
 
+			if !vm.halted() {
+				// runTryInner() has returned because an exception raised with panic() (a ReferenceError,
+				// a TypeError of a built-in, an exception of a native function...) was caught by a handler
+				// inside the finally block, not because the code has yielded, returned or left the block
+				continue
+			}
+
 			if vm.prg != nil && vm.pc == -2 { // normal exit from finally
 				if g.enterNextFinallyFrame() {
 					continue
